@@ -141,6 +141,23 @@ def check_op(name: str, case: dict) -> Optional[Tuple[str, str]]:
     # sit close to interpolation kinks; the float32 step then averages one-sided slopes, so its tolerance is
     # loose there (a detached / rounded path changes the gradient by O(1), far above it).
     casts = any(o.dtype != F64 for o in outs)
+    if not casts:
+        # an operation may compute in float32 internally (`source.float()`) and still return float64 (a float64 mask
+        # promotes the product): then the value is blind to the float64 bits of its inputs, and central differences
+        # with a float64-sized step are rounding noise. Detected directly: rounding every float64 leaf to float32
+        # leaves the value bit-identical.
+        with torch.no_grad():
+            base = float(_scalar(f(), W))
+            saved = {n: x.detach().clone() for n, x in leaves.items() if x.dtype == F64}
+            for n, v0 in saved.items():
+                leaves[n].copy_(v0.float().to(F64))
+            try:
+                rounded = float(_scalar(f(), W))
+            finally:
+                for n, v0 in saved.items():
+                    leaves[n].copy_(v0)
+        if saved and any(bool((v0.float().to(F64) != v0).any()) for v0 in saved.values()) and rounded == base:
+            casts = True
     # levels: (step h, self-consistency tolerance between the differences at h and h/4, comparison tolerance)
     kinky = name.startswith("spatial.")
     coarse = (4e-3, 5e-3, 5e-2 if kinky else 1.5e-2)
@@ -837,6 +854,59 @@ def _image_transformer(cname):
 for _c in ["Translation", "EulerRotation", "AffineTransform", "DisplacementFieldTransform", "FreeFormDeformation",
            "StationaryVelocityFreeFormDeformation", "Sequential[Affine,FFD]"]:
     op(f"spatial.ImageTransformer[{_c}]")(_image_transformer(_c))
+
+
+def _linked_inverse_op(cname, route):
+    """gradient through the LINKED inverse (`t.inv`: link=True, update_buffers=True) w.r.t. the parameters it shares
+    with the forward transform, evaluated by __call__ (pre-forward hook refreshes the buffers) or directly through
+    forward()/tensor() as update_buffers=True allows"""
+    def build(case):
+        gen, g, t = _make_transform(cname, case)
+        t.update()
+        x = leaf(_points(gen, case, g.ndim))
+        leaves = _param_leaves(t)
+        leaves["points"] = x
+
+        def f():
+            t.update()
+            ti = t.inv
+            if route == "call":
+                return ti(x)
+            if route == "tensor":
+                return ti.tensor()
+            return ti.forward(x)
+        if route == "tensor":
+            del leaves["points"]
+        return leaves, f
+    return build
+
+
+for _c in ["Translation", "EulerRotation", "RigidTransform", "AffineTransform", "StationaryVelocityFieldTransform",
+           "StationaryVelocityFreeFormDeformation"]:
+    for _r in ("call", "forward") + (("tensor",) if _c in LINEAR_CLASSES else ()):
+        op(f"spatial.{_c}.inv(linked).{_r}")(_linked_inverse_op(_c, _r))
+REQUIRE_PARAM_GRADS.update(f"spatial.{_c}.inv(linked).{_r}" for _c in ["Translation", "EulerRotation", "RigidTransform",
+                           "AffineTransform", "StationaryVelocityFieldTransform", "StationaryVelocityFreeFormDeformation"]
+                           for _r in ("call", "forward", "tensor"))
+
+
+def _pointset_loss(cls_name, which):
+    """point set distances (losses/pointset.py) w.r.t. the first and the second point set; generic random point sets:
+    the closest-point assignment is locally constant (the nearest and second nearest candidates differ by far more
+    than the finite-difference step)"""
+    def build(case):
+        from deepali.losses import pointset as PL
+        gen = tgen(case["seed"])
+        D = len(spatial_shape(case))
+        x = leaf(rand(gen, 2, 7, D, lo=-1, hi=1))
+        y = leaf(rand(gen, 2, 7 if cls_name == "LandmarkPointDistance" else 9, D, lo=-1, hi=1))
+        loss = getattr(PL, cls_name)()
+        return {"x": x, "y": y}, lambda: loss(x, y)
+    return build
+
+
+op("losses.ClosestPointDistance")(_pointset_loss("ClosestPointDistance", "xy"))
+op("losses.LandmarkPointDistance")(_pointset_loss("LandmarkPointDistance", "xy"))
 
 
 @op("spatial.PointSetTransformer[AffineTransform]")
